@@ -119,7 +119,8 @@ impl<'a, R: Read> Lexer<Scanner<'a, R>> {
                         Ok(char) => {
                             // If using CRLF, normalize to LF
                             if last_char == b'\r' && char == b'\n' {
-                                self.scanner.read()?;
+                                // The input can end right after the line break
+                                self.scanner.advance()?;
                             }
 
                             Ok(&self.cur)
